@@ -135,11 +135,11 @@ def coq_make(targets, timeout=1500, clean=False):
     with Lock('coq'):
         write_coqproject()
         if clean:
-            for t in targets:
-                for ext in ('.vo', '.vok', '.vos', '.glob'):
-                    p = os.path.join(COQ, t[:-3] + ext)
-                    if os.path.exists(p):
-                        os.remove(p)
+            # thorough: rebuild the whole directory of every target from scratch
+            for d in {os.path.dirname(t) for t in targets}:
+                for f in glob.glob(os.path.join(COQ, d, '*')):
+                    if f.endswith(('.vo', '.vok', '.vos', '.glob')):
+                        os.remove(f)
         t0 = time.time()
         try:
             rc, out = sh(['make', '-j16'] + targets, cwd=COQ, timeout=timeout)
